@@ -411,7 +411,8 @@ class BaseProperty(base.BaseObject):
         2
         3
         """
-        return list(self._values)
+        # odml style tuples are stored as lists; copy them as well.
+        return [list(val) if isinstance(val, list) else val for val in self._values]
 
     @values.setter
     def values(self, new_value):
